@@ -22,7 +22,7 @@ Definition snap (s : st) : list Z :=
   [Z.of_nat (length (evq s))] ++ map q_n (evq s) ++
   [cnt s; on (towake s); zn (total s); bz (ispan s); zn (nextb s); opc_n (opc s); bz (oco s); bz (ocbit s); zn (odis s); unw_n (ounw s);
    zn (ofin s); unw_n (opay s); oz (oto s); oz (odl s); oz (opdl s); ocall s; bz (oalld s); zn (ob s); zn (ocur s); zn (oev s); res_n (ojres s);
-   zn (fi s); q_n (ostash s); now s; zn (nexta s); zn (nexte s); last_n (olast s); zn (rer s); on (rerp s); bz (oleft s)] ++
+   zn (fi s); q_n (ostash s); bz (owk s); now s; zn (nexta s); zn (nexte s); last_n (olast s); zn (rer s); on (rerp s); bz (oleft s)] ++
   flat_map (fun a => [bz (sel s a); apc_n (pc s a); bz (cbit s a); bz (inl s a); zn (kern s a); res_n (ares s a); bz (jst s a); zn (aw s a); zn (acur s a);
                       zn (tops s a); zn (bots s a); zn (botd s a); zn (sent s a); bz (byield s a); zn (dpush s a); zn (dpop s a)]) A ++
   flat_map (fun e => [kpc_n (kpc s e); zn (earm s e); zn (kw s e); zn (epush s e); zn (epop s e); zn (ernd s e)]) E ++
